@@ -176,6 +176,28 @@ func runC01(r *Run) int {
 			c.SetInput(v.Canonical(spec.LBase))
 			w.Violate(Violation{Monitor: "C01", Check: "base score of a directly built Base equals exact FIRST value", Case: c, Observed: got, Expected: float64(exp) / 10})
 		}
+		// a Base that was DECODED from another vector and then had every exported field overwritten
+		for _, lvl := range []int{spec.LBase, spec.LTemp, spec.LEnv} {
+			w.Eval(1)
+			other := newV3(rng.IntN(2), rng.IntN(nBase3))
+			od, err, pan := lib.DecodeAuto(lib.Kind3(lvl), render3(&other, spec.LBase, rng))
+			if err != nil || pan != nil || od.IsNil() {
+				continue
+			}
+			if lvl == spec.LBase && rng.IntN(2) == 0 {
+				od.Score() // ... possibly after it was scored once
+			}
+			od.SetVer(lib.Ver3[ver])
+			for m := spec.AV; m <= spec.A; m++ {
+				od.SetField(m, lib.C3[m][v.M[m]])
+			}
+			bv, _, _ := od.BaseView()
+			if got, pan := bv.Score(); pan != nil || !tenthEq(got, exp) {
+				c := Case{Type: "v3struct", Kind: lib.Kind3(lvl).String(), Args: map[string]string{"origin": "decoded from another vector, then every exported field overwritten", "origin_vector": render3(&other, spec.LBase, nil)}}
+				c.SetInput(v.Canonical(spec.LBase))
+				w.Violate(Violation{Monitor: "C01", Check: "base score of a decoded object whose exported fields were then overwritten equals the exact FIRST value of the new fields", Case: c, Observed: got, Expected: float64(exp) / 10})
+			}
+		}
 		if idx%431 == 0 {
 			w.Sample(map[string]interface{}{"vector": v.String(spec.LBase), "expected": float64(exp) / 10})
 		}
@@ -209,7 +231,7 @@ func runC01(r *Run) int {
 	if r.Counter("valid_vector_not_decoded") > 0 || r.Counter("score_panicked") > 0 {
 		r.Inconclusive("%d valid vectors were not decoded / %d queries panicked: scores unobservable there (C07/C12 judge that)", r.Counter("valid_vector_not_decoded"), r.Counter("score_panicked"))
 	}
-	return r.Finish("all 2x2,592 (version, base combination) vectors, each decoded by the base, temporal and environmental decoder in canonical order and in seeded random token orders with random optional metrics (spelled or omitted), plus a directly built Base struct, plus all 8! token orders of seed vectors; oracle = exact big.Rat FIRST equations with exact ceiling; distinct non-trivial = distinct (version, combination) with non-zero expected score",
+	return r.Finish("all 2x2,592 (version, base combination) vectors, each decoded by the base, temporal and environmental decoder in canonical order and in seeded random token orders with random optional metrics (spelled or omitted), plus a directly built Base struct and objects decoded from another vector whose exported fields were then overwritten, plus all 8! token orders of seed vectors; oracle = exact big.Rat FIRST equations with exact ceiling; distinct non-trivial = distinct (version, combination) with non-zero expected score",
 		true, nontrivial.Load(), 2*nBase3*4, 4000, TrustedBase)
 }
 
@@ -440,6 +462,14 @@ func runC03(r *Run) int {
 	r.Parallel(nEff3, 8, func(w *W, key int) {
 		rng := r.Rng(uint64(key) + 1)
 		e := m3.NewEnvironmental()
+		if key%8 == 3 { // object origin: decoded from some other vector (and scored once), then overwritten
+			ov := newV3(rng.IntN(2), rng.IntN(nBase3))
+			randOptional3(&ov, spec.LEnv, rng)
+			if d, err, pan := lib.DecodeAuto(lib.K3E, render3(&ov, spec.LEnv, rng)); err == nil && pan == nil && !d.IsNil() {
+				d.Score()
+				e = d.E3
+			}
+		}
 		o := lib.Obj{Kind: lib.K3E, E3: e}
 		for ti := 0; ti < 100; ti++ {
 			v := represent3(key, ti, rng, st)
@@ -611,6 +641,27 @@ func replayScore3(r *Run, c Case) {
 		}
 		exp := spec.Score3(&p.V)
 		e := lib.Build3(&p.V)
+		if ov := c.Args["origin_vector"]; ov != "" {
+			// object origin: decoded from another vector (tried with every receiver mode and with/without a prior Score), then overwritten
+			for mode := 0; mode < 3; mode++ {
+				for pre := 0; pre < 2; pre++ {
+					if d, _, err, pan := lib.DecodeMode(lib.K3E, ov, mode); err == nil && pan == nil && !d.IsNil() {
+						if pre == 1 {
+							d.Score()
+							bv, _, _ := d.BaseView()
+							bv.Score()
+						}
+						lib.Fill3(d.E3, &p.V)
+						if g := d.E3.BaseMetrics().Score(); !tenthEq(g, exp.Base) && r.ID == "C01" {
+							w.Violate(Violation{Monitor: r.ID, Check: "base score of a decoded-then-overwritten object", Case: c, Observed: g, Expected: float64(exp.Base) / 10})
+						}
+						if g := d.E3.Score(); !tenthEq(g, exp.Env) && r.ID == "C03" {
+							w.Violate(Violation{Monitor: r.ID, Check: "environmental score of a decoded-then-overwritten object", Case: c, Observed: g, Expected: float64(exp.Env) / 10})
+						}
+					}
+				}
+			}
+		}
 		got := e.Score()
 		fmt.Printf("replay struct %s: env observed %v expected %v; temporal observed %v expected %v; base observed %v expected %v\n", s, got, float64(exp.Env)/10,
 			e.TemporalMetrics().Score(), float64(exp.Temp)/10, e.BaseMetrics().Score(), float64(exp.Base)/10)
